@@ -190,7 +190,7 @@ func c01Pack(p *core.Program, r *core.Report, ip *bits.Interp) {
 				ok2, detail = false, fmt.Sprintf("writes %d byte positions, want %d", len(cells), n)
 			}
 			for k := 0; k < n && ok2; k++ {
-				got, has := res.B.Cells[k]
+				got, has := res.B.Cell(k)
 				if !has {
 					ok2, detail = false, fmt.Sprintf("byte %d never written", k)
 					break
